@@ -174,6 +174,18 @@ CLAIMED = {
              'covered by a native page check (bounded stand-in) only; user middleware reprs are outside the statement.',
         technique='contract-based deductive verification (pyvc + z3): term-dependence (non-interference) and '
                   'exception-containment obligations', design_ref='DESIGN.md 7 C18'),
+    'C05': dict(
+        text='T obligations over regular languages (z3 RegLan; Python regexes translated mechanically through '
+             're._parser): each type\'s lexical class admits only strings its converter accepts and no "/"; for every '
+             'pattern shape of up to N elements (N=2 quick, 3 thorough) x trailing slash x slash mode the regex produced '
+             'by the real _compile_path_pattern equals, as a language over ALL paths, a spec regex built from the '
+             'statement; K: BoundRoute.match_path never raises and returns None or exactly the converter names; the '
+             'converter closures are compared natively with a declarative matcher (bounded).',
+        note='A-re (Python re semantics for the translated constructs); patterns are enumerated by shape (bounded in '
+             'configurations, complete in paths); known finding F3 (empty pieces in multi bindings) is case-split; O2 '
+             '(strict pattern with all bindings absent vs "/") is a documented spec decision.',
+        technique='contract-based: RegLan lemmas on constants extracted from the real module + per-shape language '
+                  'equivalence proofs (z3), K contract on match_path', design_ref='DESIGN.md 7 C05'),
 }
 
 REASONS = {}
